@@ -16,7 +16,7 @@ def waitopen_lines(rnd):
 def gen_c13(rnd, n, thorough=False):
     cases = []
     for c in range(n):
-        kind = rnd.pick(['failed_open', 'failed_open', 'block', 'proc', 'sessions', 'waitopen', 'childhold'])
+        kind = rnd.pick(['failed_open', 'failed_open', 'block', 'proc', 'sessions', 'waitopen', 'childhold', 'dblclose'])
         lines = []
         if kind == 'failed_open':
             # every way Open can fail after the descriptor was obtained (and a control that succeeds)
@@ -48,6 +48,13 @@ def gen_c13(rnd, n, thorough=False):
         elif kind == 'waitopen':
             lines += waitopen_lines(rnd)
             tags = {'kind': kind}
+        elif kind == 'dblclose':
+            # a handle closed twice while another file's handle lives on the descriptor number it had
+            layout = [(1, 20), (5, 10)]
+            for nm in ('f', 'g'):
+                lines += ["create %s %s m 2 x 3f000000" % (nm, fmt_layout(layout)), "sync %s" % nm, "drop %s" % nm]
+            lines += ["dblclose f g", "dblclose g f", "lockblock g"]
+            tags = {'kind': kind}
         elif kind == 'childhold':
             layout = [(1, 20), (5, 10)]
             lines += ["create f %s m 2 x 3f000000" % fmt_layout(layout), "sync f", "drop f", "childhold f"]
@@ -66,7 +73,26 @@ def gen_c17(rnd, n, thorough=False):
     cases = []
     for c in range(n):
         kind = rnd.pick(['confetch', 'confetch', 'sum', 'http'])
+        if c == 1:
+            kind = 'sum_many'
         lines = []
+        if kind == 'sum_many':
+            # more files than any worker pool, read concurrently: all good, then every read failing
+            # (an archive the files do not have), then a few unreadable files among them: the sum
+            # returns what each file read alone gives -- a sum or an error -- and does return
+            layout = [(1, 6), (3, 4)]
+            nfiles = rnd.randint(20, 40)
+            bad = rnd.sample(range(nfiles), rnd.randint(1, 3))
+            for j in range(nfiles):
+                nm = 's/i1/f%02d.wsp' % j
+                if j in bad:
+                    lines += ["create %s %s m 2 x 3f000000" % (nm, fmt_layout(layout)), "drop %s" % nm]
+                else:
+                    lines += fill_ops(rnd, nm, layout, 2, 0x3f000000, density=0.5, inconsistent=False)
+            lines.append("clisum base=s item=i1 src=f*.wsp from=0 until=0 archive=5 header=1")
+            lines.append("clisum base=s item=i1 src=f*.wsp from=0 until=0 archive=-1 header=1")
+            cases.append({'id': 'c17-%d' % c, 'lines': lines, 'tags': {'kind': kind}})
+            continue
         if kind == 'confetch':
             lname, layout = pick_layout(rnd, ['multipage', 'multipage3', 'three', 'tens'], random_share=0.2, max_points=300)
             k = len(layout)
